@@ -257,7 +257,7 @@ Proof.
   { unfold pr. destruct (negb (jo_prefer_cached o) || unification_decides W st (jr_pkg it) (jr_req it));
       [exact H | apply probe_pinv; exact H]. }
   destruct pr as [[st1 memo1] cached]. cbn [fst] in Hpr.
-  destruct (resolve_version W (jr_req it) versions (versions_by_name (js_pkgs st1) (jr_pkg it)) cached) as [[v yanked]|].
+  destruct (resolve_version W (jr_req it) versions (versions_by_name (js_pkgs st1) (jr_pkg it)) cached (late_of W (jr_pkg it))) as [[v yanked]|].
   - apply IH. apply queue_ver_pinv. eapply PInv_ext; [| |exact Hpr]; reflexivity.
   - destruct (js_busting st1); [apply IH; apply set_err_np; exact Hpr | exact Hpr].
 Qed.
@@ -836,10 +836,10 @@ Proof.
   - inversion H; subst. right. exact Em.
 Qed.
 
-Lemma resolve_version_matches : forall req versions existing cached v y,
-  resolve_version W req versions existing cached = Some (v, y) -> matches W req v = true.
+Lemma resolve_version_matches : forall req versions existing cached late v y,
+  resolve_version W req versions existing cached late = Some (v, y) -> matches W req v = true.
 Proof.
-  intros req versions existing cached v y. unfold resolve_version.
+  intros req versions existing cached late v y. unfold resolve_version.
   assert (G : forall vs x, best_match W req vs None = Some x -> matches W req x = true).
   { intros vs x H. apply best_match_matches in H. destruct H as [H|H]; [discriminate | exact H]. }
   destruct (best_match W req existing None) as [v0|] eqn:E0.
@@ -847,9 +847,9 @@ Proof.
   set (s15 := match cached with [] => None | _ => _ end).
   destruct s15 as [v1|] eqn:E15.
   { intro H. inversion H; subst. unfold s15 in E15. destruct cached; [discriminate|]. apply (G _ _ E15). }
-  destruct (best_match W req (map fst (filter (fun p => negb (snd p)) versions)) None) as [v2|] eqn:E2.
+  match goal with |- context [best_match W req ?l None] => destruct (best_match W req l None) as [v2|] eqn:E2 end.
   { intro H. inversion H; subst. apply (G _ _ E2). }
-  destruct (best_match W req (map fst (filter (fun p => snd p) versions)) None) as [v3|] eqn:E3; [|discriminate].
+  match goal with |- context [best_match W req ?l None] => destruct (best_match W req l None) as [v3|] eqn:E3 end; [|discriminate].
   intro H. inversion H; subst. apply (G _ _ E3).
 Qed.
 
@@ -887,11 +887,11 @@ Proof.
   { unfold pr. destruct (negb (jo_prefer_cached o) || unification_decides W st (jr_pkg it) (jr_req it));
       [exact H | apply probe_jinv; exact H]. }
   destruct pr as [[st1 memo1] cached]. cbn [fst] in Hpr.
-  destruct (resolve_version W (jr_req it) versions (versions_by_name (js_pkgs st1) (jr_pkg it)) cached) as [[v yanked]|] eqn:Er.
+  destruct (resolve_version W (jr_req it) versions (versions_by_name (js_pkgs st1) (jr_pkg it)) cached (late_of W (jr_pkg it))) as [[v yanked]|] eqn:Er.
   - apply IH; [| exact Hrest |].
     + apply jinv_queue_ver; [exact Hwf|]. eapply jinv_ext; [| | | | | | | |exact Hpr]; reflexivity.
     + apply Forall_app. split; [exact Hacc|]. constructor; [|constructor].
-      unfold VresOK. cbn. split; [exact Hit|]. split; [reflexivity|]. apply (resolve_version_matches _ _ _ _ _ _ Er).
+      unfold VresOK. cbn. split; [exact Hit|]. split; [reflexivity|]. apply (resolve_version_matches _ _ _ _ _ _ _ Er).
   - destruct (js_busting st1).
     + apply IH; [apply jinv_set_err; exact Hpr | exact Hrest | exact Hacc].
     + split; [exact Hpr | exact I].
